@@ -257,23 +257,31 @@ def run_coq_cases(workdir: Path, exprs: list[str], imports: str, shard: int = 15
             for e in exprs[k:k + shard]:
                 fh.write(f"Eval vm_compute in ({e}).\n")
         files.append(f)
-    procs = []
     results = []
     maxpar = 16
     outs = {}
     pending = list(files)
     running = []
+    # stdout/stderr go to files: a pipe would block coqc after 64 kB and serialise the shards
     while pending or running:
         while pending and len(running) < maxpar:
             f = pending.pop(0)
+            fo = open(str(f) + ".out", "w")
+            fe = open(str(f) + ".err", "w")
             p = subprocess.Popen(["timeout", "900", "coqc", "-Q", str(COQ / "theories"), "LymphModel", f.name],
-                                 cwd=workdir, stdout=subprocess.PIPE, stderr=subprocess.PIPE, text=True)
-            running.append((f, p))
-        f, p = running.pop(0)
-        out, err = p.communicate()
+                                 cwd=workdir, stdout=fo, stderr=fe, text=True)
+            running.append((f, p, fo, fe))
+        f, p, fo, fe = running.pop(0)
+        p.wait()
+        fo.close()
+        fe.close()
         if p.returncode != 0:
-            raise HarnessError(f"coqc failed on {f}: {err[-2000:]}")
-        outs[f] = out
+            for (_f2, p2, fo2, fe2) in running:
+                p2.kill()
+                fo2.close()
+                fe2.close()
+            raise HarnessError(f"coqc failed on {f}: {open(str(f) + '.err').read()[-2000:]}")
+        outs[f] = open(str(f) + ".out").read()
     for k, f in enumerate(files):
         vals = split_evals(outs[f])
         expect = len(exprs[k * shard:(k + 1) * shard])
@@ -598,8 +606,8 @@ def part_a(ctx: Ctx) -> bool:
                       {"part": "A", "broken": "property file"}, found_input=False)
         return False
     if ctx.tier == "thorough":
-        r = subprocess.run(["timeout", "1800", "coqchk", "-o", "-Q", str(COQ / "theories"), "LymphModel",
-                            "-Q", str(ctx.work), "Audit", f"Audit.{ctx.pid}_audit"],
+        r = subprocess.run(["timeout", "1800", "coqchk", "-o", "-silent", "-Q", str(COQ / "theories"), "LymphModel",
+                            "-R", str(ctx.work), "", f"{ctx.pid}_audit"],
                            cwd=ctx.work, capture_output=True, text=True)
         tail = (r.stdout + r.stderr)[-3000:]
         ctx.extra["coqchk"] = {"returncode": r.returncode, "tail": tail}
